@@ -1,8 +1,150 @@
 import JrsVerif.Common.J
+import JrsVerif.Model.StdObj
 
 namespace JrsVerif.Drv.C13
-open Lean JrsVerif.J
+open Lean JrsVerif.J JrsVerif.StdObj
 
-def handle (_op : String) (_j : Json) : Option Json := none
+/-! term encoding (both directions):
+    null | true | 3 | "s" | [..]                      scalars / arrays
+    {"$e":1}                                          failing thunk (`error "x"`)
+    {"$fn":n}                                         function of n parameters
+    {"$o":[[ [name, "n"|"h"|"u", plus, term], … ], …]}  input: inheritance chain of layers
+    {"$o":[[name, hidden, term], …]}                  output: flattened, all names ascending -/
+
+def toVis : String → Option Vis
+  | "n" => some .normal
+  | "h" => some .hidden
+  | "u" => some .unhide
+  | _ => none
+
+partial def toV (j : Json) : Option V :=
+  match j with
+  | .null => some .null
+  | .bool b => some (.bool b)
+  | .num _ => (j.getInt?.toOption).map V.num
+  | .str s => some (.str s)
+  | .arr a => (a.toList.mapM toV).map (fun l => V.arr (VL.ofList l))
+  | .obj _ =>
+    match j.getObjVal? "$e" with
+    | .ok _ => some .err
+    | _ =>
+      match j.getObjVal? "$fn" with
+      | .ok n => (n.getNat?.toOption).map V.func
+      | _ =>
+        match j.getObjVal? "$o" with
+        | .ok (.arr layers) =>
+          (layers.toList.mapM (fun l =>
+            match l with
+            | Json.arr fs => fs.toList.mapM (fun f =>
+                match f with
+                | Json.arr #[Json.str n, Json.str v, Json.bool p, t] => do
+                    let vis ← toVis v
+                    let tv ← toV t
+                    pure ({ name := n, vis := vis, plus := p, val := tv } : LField)
+                | _ => none)
+            | _ => none)).map (fun ls => V.obj (flatten ls))
+        | _ => none
+
+partial def ofV : V → Json
+  | .null => .null
+  | .bool b => .bool b
+  | .num n => toJson n
+  | .str s => .str s
+  | .arr xs => .arr (xs.toList.map ofV).toArray
+  | .obj fs =>
+    obj [("$o", .arr ((fieldsEx fs true).map (fun k =>
+      Json.arr #[.str k, .bool (!has fs k), ofV (getLazy fs k)])).toArray)]
+  | .func n => obj [("$fn", toJson n)]
+  | .err => obj [("$e", toJson (1 : Nat))]
+
+def enc (r : Option V) : Json :=
+  match r with
+  | some v => obj [("ok", ofV v)]
+  | none => obj [("err", toJson (1 : Nat))]
+
+def asObj : V → Option FL | .obj o => some o | _ => none
+def asStr : V → Option String | .str s => some s | _ => none
+def asBool : V → Option Bool | .bool b => some b | _ => none
+
+def natV (n : Nat) : V := .num (Int.ofNat n)
+
+/-- (model, spec) of `std.<fn>(args)`; `f` names a pool function -/
+def call (fn : String) (f : String) (a : List V) : Option (Option V × Option V) :=
+  let both (x : Option V) := some (x, x)
+  match fn, a with
+  | "objectFields", [o] =>
+    some ((asObj o).map (Model.objectFieldsEx · false), (asObj o).map (fun o => strArr (Spec.fieldsByMergeSort o false)))
+  | "objectFieldsAll", [o] =>
+    some ((asObj o).map (Model.objectFieldsEx · true), (asObj o).map (fun o => strArr (Spec.fieldsByMergeSort o true)))
+  | "objectFieldsEx", [o, h] =>
+    some ((do Model.objectFieldsEx (← asObj o) (← asBool h)),
+          (do let o ← asObj o; let h ← asBool h; pure (strArr (Spec.fieldsByMergeSort o h))))
+  | "objectValues", [o] =>
+    some ((asObj o).map (Model.objectValuesEx · false), (asObj o).map (Spec.objectValuesEx · false))
+  | "objectValuesAll", [o] =>
+    some ((asObj o).map (Model.objectValuesEx · true), (asObj o).map (Spec.objectValuesEx · true))
+  | "objectKeysValues", [o] =>
+    some ((asObj o).map (Model.objectKeysValuesEx · false), (asObj o).map (Spec.objectKeysValuesEx · false))
+  | "objectKeysValuesAll", [o] =>
+    some ((asObj o).map (Model.objectKeysValuesEx · true), (asObj o).map (Spec.objectKeysValuesEx · true))
+  | "objectHas", [o, k] =>
+    some ((do pure (V.bool (Model.objectHasEx (← asObj o) (← asStr k) false))),
+          (do pure (V.bool (Spec.objectHasEx (← asObj o) (← asStr k) false))))
+  | "objectHasAll", [o, k] =>
+    some ((do pure (V.bool (Model.objectHasEx (← asObj o) (← asStr k) true))),
+          (do pure (V.bool (Spec.objectHasEx (← asObj o) (← asStr k) true))))
+  | "objectHasEx", [o, k, h] =>
+    some ((do pure (V.bool (Model.objectHasEx (← asObj o) (← asStr k) (← asBool h)))),
+          (do pure (V.bool (Spec.objectHasEx (← asObj o) (← asStr k) (← asBool h)))))
+  | "get", [o, k] =>
+    some ((do Model.get (← asObj o) (← asStr k) .null true), (do Spec.get (← asObj o) (← asStr k) .null true))
+  | "get", [o, k, d] =>
+    some ((do Model.get (← asObj o) (← asStr k) d true), (do Spec.get (← asObj o) (← asStr k) d true))
+  | "get", [o, k, d, h] =>
+    some ((do Model.get (← asObj o) (← asStr k) d (← asBool h)),
+          (do Spec.get (← asObj o) (← asStr k) d (← asBool h)))
+  | "objectRemoveKey", [o, k] =>
+    some ((do pure (Model.objectRemoveKey (← asObj o) (← asStr k))),
+          (do pure (Spec.objectRemoveKey (← asObj o) (← asStr k))))
+  | "mapWithKey", [o] =>
+    some ((asObj o).map (Model.mapWithKey f), (asObj o).map (Spec.mapWithKey f))
+  | "mergePatch", [t, p] => some (Model.mergePatch t p, Spec.mergePatch t p)
+  | "prune", [v] => some (Model.prune v, Spec.prune v)
+  | "length", [v] => both ((Model.length v).map natV)
+  | "type", [v] => both (some (.str (typeName v)))
+  | "isString", [v] => both (some (.bool (isType "string" v)))
+  | "isNumber", [v] => both (some (.bool (isType "number" v)))
+  | "isBoolean", [v] => both (some (.bool (isType "boolean" v)))
+  | "isObject", [v] => both (some (.bool (isType "object" v)))
+  | "isArray", [v] => both (some (.bool (isType "array" v)))
+  | "isFunction", [v] => both (some (.bool (isType "function" v)))
+  | "isNull", [v] => both (some (.bool (isType "null" v)))
+  | "equals", [x, y] => both ((equals x y).map V.bool)
+  | "primitiveEquals", [x, y] => both ((primitiveEquals x y).map V.bool)
+  | "assertEqual", [x, y] => both ((assertEqual x y).map V.bool)
+  -- spec only: the shared-pointer shortcut (`equalsSame`) is a known finding; the theorems
+  -- `equalsSame_*` of Props/C13 describe exactly where it differs from `equals x x`
+  | "equalsSame", [x] => some (none, (equals x x).map V.bool)
+  | "xor", [x, y] => both (do pure (V.bool (StdObj.xor (← asBool x) (← asBool y))))
+  | "xnor", [x, y] => both (do pure (V.bool (StdObj.xnor (← asBool x) (← asBool y))))
+  | _, _ => none
+
+def handle (op : String) (j : Json) : Option Json :=
+  match op with
+  | "c13.call" =>
+    match (do
+      let fn ← str? j "fn"
+      let a ← arr? j "a"
+      let args ← a.toList.mapM toV
+      pure (fn, args)) with
+    | none => some (bad "c13.call: parse")
+    | some (fn, args) =>
+      match call fn ((str? j "f").getD "") args with
+      | none => some (bad s!"c13.call: unknown function/arity {fn}")
+      | some (m, s) =>
+        if fn == "equalsSame" then
+          some (obj [("spec", enc s), ("_shortcut", enc ((args.head?.bind equalsSame).map V.bool))])
+        else some (obj [("model", enc m), ("spec", enc s)])
+  | _ => none
 
 end JrsVerif.Drv.C13
